@@ -11,7 +11,7 @@ import (
 func init() {
 	register(&Prop{
 		ID:         "C15",
-		Decided:    "isolation and lifecycle only: (1) the partition key encoder of the MATCH_RECOGNIZE runner is typed and length-prefixed (uniquely decodable); (2) all partition state of cep.Engine (partMap, lru, seq) is accessed only under e.mu, the sweeper included; (3) per-partition state is reached only through getPartition(key): partMap is read/written only by getPartition and evictIfNeeded, and Process steps exactly the partition it looked up with the key it was given; (4) partitions are evicted only when lru.Len() > maxPart and the evicted one is lru.Back(); (5) Stop order: waitLifecycle -> cep.Stop -> engine.Flush -> synchronous flush delivery, flush rows projected like live matches (shared with C18); (5b) the scratch map that DEFINE/MEASURES evaluation takes from the process-wide pool is emptied before its first write (or before every exit), so no row's fields leak into the evaluation of another row, partition or instance; (6) the live path feeds the engine only rows that passed JOIN enrichment and WHERE, with the runner's own partition key. Also (match bookkeeping, structural necessary conditions only): the row number passed to step is a counter of the stepped partition (skipTo computes startSeq+offset); on every path through the loops over p.runs in step and sweep a run that may be accepting is recorded/kept unless hasAccept is false, a successor is accepting or the length guard is hit; partition fields are accessed under Engine.mu; in-place filtering of p.runs appends at most one element per element read. Also: a pending start is emitted only after an ordered comparison with the surviving runs' starts (leftmost first); an in-place compaction is committed on every path.",
+		Decided:    "isolation and lifecycle only: (1) the partition key encoder of the MATCH_RECOGNIZE runner is typed and length-prefixed (uniquely decodable); (2) all partition state of cep.Engine (partMap, lru, seq) is accessed only under e.mu, the sweeper included; (3) per-partition state is reached only through getPartition(key): partMap is read/written only by getPartition and evictIfNeeded, and Process steps exactly the partition it looked up with the key it was given; (4) partitions are evicted only when lru.Len() > maxPart and the evicted one is lru.Back(); (5) Stop order: waitLifecycle -> cep.Stop -> engine.Flush -> synchronous flush delivery, flush rows projected like live matches (shared with C18); (5b) the scratch map that DEFINE/MEASURES evaluation takes from the process-wide pool is emptied before its first write (or before every exit), so no row's fields leak into the evaluation of another row, partition or instance; (6) the live path feeds the engine only rows that passed JOIN enrichment and WHERE, with the runner's own partition key. Also (match bookkeeping, structural necessary conditions only): the row number passed to step is a counter of the stepped partition (skipTo computes startSeq+offset); on every path through the loops over p.runs in step and sweep a run that may be accepting is recorded/kept unless hasAccept is false, a successor is accepting or the length guard is hit; partition fields are accessed under Engine.mu; in-place filtering of p.runs appends at most one element per element read. Also: a pending start is emitted only after an ordered comparison with the surviving runs' starts (leftmost first); an in-place compaction is committed on every path. Also: a store into partition.pending (the greedy completions waiting per start row) is unreachable, with the slot occupied, for one outcome of a comparison of the candidates' row counts (flow/pending-keeps-longest): map order cannot decide which of two same-start completions is reported.",
 		NotDecided: "apart from the two bookkeeping conditions above, everything about which matches are reported: NFA construction, greedy/reluctant choice, SKIP modes, WITHIN, MEASURES, MATCH_NUMBER — match semantics are value-level.",
 		Run:        runC15,
 	})
@@ -118,6 +118,7 @@ func runC15(a *A) {
 			a.Ok("cep#pooled-map-cleared", token.NoPos, "package cep takes no map from a sync.Pool").Trivial = true
 		}
 	})
+	a.Rule("flow/pending-keeps-longest", 1, func() { a.rulePendingKeepsLongest() })
 	a.Rule("flow/live-path", 3, func() {
 		fn := a.Method("stream", "DataProcessor", "processCEP")
 		enrich := a.Method("stream", "Stream", "enrichData")
@@ -429,4 +430,93 @@ func (a *A) ruleLeftmostFirst() {
 	}
 	a.Check(ok, construct, ordered.Pos(), "a pending start is emitted only after its order relative to the surviving runs' starts was tested",
 		"the ordered comparison with the survivors' starts does not control the emission")
+}
+
+// rulePendingKeepsLongest: in greedy mode the completed matches wait in partition.pending, one per
+// start row, until no run that started there can still grow; the match reported for a start is the
+// longest one. Two runs with the same start can complete on the same row ((A+ | A B) on A B), in map
+// order — so an entry of pending is replaced only by a longer completion: every store into
+// partition.pending is guarded by a comparison of the candidates' row counts (or by the slot being
+// empty).
+func (a *A) rulePendingKeepsLongest() int {
+	P := a.Named("cep", "partition")
+	pend := a.FieldOf(P, "pending")
+	nrows := a.FieldOf(a.Named("cep", "run"), "nrows")
+	n := 0
+	for _, fn := range a.ModFuncs {
+		if fn.Pkg != a.Pkg("cep") || fn.Blocks == nil {
+			continue
+		}
+		allInstrs(fn, func(in ssa.Instruction) {
+			mu, ok := in.(*ssa.MapUpdate)
+			if !ok {
+				return
+			}
+			if t := TermOf(mu.Map, nil); t.Kind != "field" || t.Field != pend {
+				return
+			}
+			n++
+			isRows := func(v ssa.Value) bool {
+				for y := range backwardSlice(v, 3) {
+					if fa, ok := y.(*ssa.FieldAddr); ok && fieldVarOf(fa) == nrows {
+						return true
+					}
+				}
+				return false
+			}
+			// with a slot that is occupied, the store must be unreachable for one outcome of the row-count
+			// comparison (whichever way round it is written)
+			guarded := false
+			sawCmp := false
+			for _, pol := range []Tri{F, T} {
+				pol := pol
+				reach := reachUnder(fn, mu, func(v ssa.Value) Tri {
+					bo, ok := v.(*ssa.BinOp)
+					if !ok {
+						if ex, ok := v.(*ssa.Extract); ok && ex.Index == 1 {
+							if _, isLk := ex.Tuple.(*ssa.Lookup); isLk {
+								return T // the slot exists
+							}
+						}
+						return U
+					}
+					switch bo.Op {
+					case token.GTR, token.LSS, token.GEQ, token.LEQ:
+						if isRows(bo.X) && isRows(bo.Y) {
+							sawCmp = true
+							return pol
+						}
+					}
+					// the slot is occupied: len(cur) == 0 is false, != 0 / > 0 true; cur == nil false
+					if c, ok := bo.X.(*ssa.Call); ok {
+						if _, isLen := isBuiltinCall(c, "len"); isLen && isZeroConst(bo.Y) {
+							switch bo.Op {
+							case token.EQL, token.LEQ:
+								return F
+							case token.NEQ, token.GTR:
+								return T
+							}
+						}
+					}
+					if isNilConst(bo.Y) {
+						switch bo.Op {
+						case token.EQL:
+							return F
+						case token.NEQ:
+							return T
+						}
+					}
+					return U
+				})
+				if !reach {
+					guarded = true
+				}
+			}
+			guarded = guarded && sawCmp
+			a.Check(guarded, fname(fn)+"#pending-keeps-longest", mu.Pos(),
+				"a pending completion is replaced only after a comparison of the row counts",
+				"a completion is stored into partition.pending without comparing its length with the one already waiting for that start row: when two runs with the same start complete on the same row (alternation with a shared prefix), map order decides which is reported, and the shorter one leaves the next row unmatched")
+		})
+	}
+	return n
 }
